@@ -145,6 +145,19 @@ theorem C05_value_depends_on_the_subtree (h h' : Heap) (P : Id → Prop)
       h'.childMap m = h.childMap m ∧ ∀ c ∈ (h.childMap m).vals, P c) (fuel : Nat) (n : Id) (hn : P n) :
     absVal fuel h' n = absVal fuel h n := absVal_congr h h' P hP fuel n hn
 
+/-- `absVal` is what the accessors say, node by node: a scalar denotes exactly what its typed getter answers; on a sound heap the
+elements listed for an array are, position by position, what `GetIndex` returns, and the members listed for an object are exactly
+what `GetKey` finds — so the plain-data theorems above are statements about what the accessors return after the mutation -/
+theorem C05_value_is_what_the_accessors_say (fuel : Nat) {h : Heap} (hs : Struct h) (n : Nat) (hn : n < h.size) :
+    ((h.typeOf n = .numeric → ∀ b, absVal (fuel + 1) h n = some (.num b) ↔ (h.getNumeric (some n)).2 = .ok b) ∧
+     (h.typeOf n = .string → ∀ s, absVal (fuel + 1) h n = some (.str s) ↔ (h.getString (some n)).2 = .ok s) ∧
+     (h.typeOf n = .bool → ∀ b, absVal (fuel + 1) h n = some (.bool b) ↔ (h.getBool (some n)).2 = .ok b) ∧
+     (h.typeOf n = .null → absVal (fuel + 1) h n = some .null ∧ h.getNull (some n) = .ok ())) ∧
+    ((h.get n).type = .array → ∀ i, i < (h.childMap n).length →
+      ∃ c, (arrayIds (h.childMap n))[i]? = some c ∧ h.getIndex (some n) (i : Int) = .ok c ∧ (arrayIds (h.childMap n)).length = (h.childMap n).length) ∧
+    ((h.get n).type = .object → ∀ k c, (k, c) ∈ h.childMap n ↔ h.getKey (some n) k = .ok c) :=
+  ⟨absVal_scalar_is_getter fuel h n, fun harr i hi => arrayIds_is_getIndex hs n hn harr i hi, fun hobj k c => members_is_getKey hs n hn hobj k c⟩
+
 /-- witnesses on the model (kernel evaluation): `absVal` of a parsed document is the value the text denotes, and after AppendArray
 of a constructed number onto `a` the document denotes the text with that number appended -/
 example :
